@@ -133,11 +133,11 @@ func StructShape(t *rapid.T) Shape {
 			}
 
 			f.HasAPI = true
-			f.API = rapid.SampledFrom([]string{"rel,t", "rel,other", "rel,t,inv", "rel,t,a", "rel,t,"}).Draw(t, "reltag")
+			f.API = rapid.SampledFrom([]string{"rel,t", "rel,other", "rel,t,inv", "rel,t,a", "rel,t,", "rel,,inv", "rel,,"}).Draw(t, "reltag")
 		default: // anything
 			f.GoType = rapid.SampledFrom(types).Draw(t, "gotype")
 			f.HasAPI = rapid.IntRange(0, 4).Draw(t, "hasapi") > 0
-			f.API = rapid.SampledFrom([]string{"attr", "attr", "rel", "rel,", "rel,t", "rel,t,inv", "rel,a,b,c", "foo", "", "attr,x", "relation,t"}).Draw(t, "apitag")
+			f.API = rapid.SampledFrom([]string{"attr", "attr", "rel", "rel,", "rel,t", "rel,t,inv", "rel,,inv", "rel,a,b,c", "foo", "", "attr,x", "relation,t"}).Draw(t, "apitag")
 		}
 
 		f.HasJSON = rapid.IntRange(0, 9).Draw(t, "hasjson") > 0
